@@ -61,15 +61,21 @@ class VClock:
     def __init__(self) -> None:
         self.offset = 0.0
         self.virtual: Optional[float] = None
+        self.frozen: Optional[float] = None
 
     def time(self) -> float:
         if self.virtual is not None:
             return self.virtual
+        if self.frozen is not None:
+            # While a harness-K world exists, time stands still unless the check moves it (offset / virtual): how long a case
+            # takes on a loaded machine must never decide whether the proxy's idle reaper (default 10 s) fires during it.
+            return self.frozen + self.offset
         return time.time() + self.offset
 
     def reset(self) -> None:
         self.offset = 0.0
         self.virtual = None
+        self.frozen = None
 
     def __getattr__(self, name: str) -> Any:
         return getattr(time, name)
@@ -498,6 +504,8 @@ class World:
     def __init__(self, flags: Any, *, tcp: bool = False, sndbuf: Optional[int] = None, max_iters: int = 20000,
                  settle: int = 8, weak_ksocks: bool = False) -> None:
         install()
+        if CLOCK.frozen is None:
+            CLOCK.frozen = time.time()
         self.weak_ksocks = weak_ksocks
         self.ksock_refs: List[Tuple[str, Any]] = []
         self.explicitly_closed: set = set()
@@ -732,6 +740,7 @@ class World:
         return not self.ended_by_script
 
     def teardown(self) -> None:
+        CLOCK.frozen = None
         for p in self.peers.values():
             if p.sock is not None:
                 try:
